@@ -169,7 +169,7 @@ def replay(path):
         import signal
         from jugverif import procmode
         p = d['replay']['params']
-        obs = procmode.signal_case(p.get('n', 4), p['k'], signal.Signals(p['sig']), p.get('args', []), repeat=p.get('repeat', False), barrier=p.get('barrier', False), broken_stdio=p.get('broken_stdio', False))
+        obs = procmode.signal_case(p.get('n', 4), p['k'], signal.Signals(p['sig']), p.get('args', []), repeat=p.get('repeat', False), barrier=p.get('barrier', False), broken_stdio=p.get('broken_stdio', False), in_syscall=p.get('in_syscall', False))
         run = core.Run('C12', 'quick')
         procmode.judge_stop(run, obs, p)
         print({k: v for k, v in obs.items() if k not in ('calls', 'calls_before')})
